@@ -1,4 +1,5 @@
-\* 2 sessions x 3 SENDs, one shard, capacity 2, batches <= 2: 115,233 generated / 38,652 distinct states, depth 29 (about 25 s idle, 95 s at load 60).
+\* 367,310 generated / 118,984 distinct states, depth 35 (3 min with 4 workers at load 70).
+\* Fine-grained admission (see MC_parked.cfg), thorough tier: 2 sessions x 3 SENDs, one shard, capacity 2, batches <= 2.
 SPECIFICATION Spec
 CONSTANTS
   Sessions = {"s1", "s2"}
@@ -9,7 +10,7 @@ CONSTANTS
   ShardCaps = {2}
   BatchMaxes = {2}
   Modes = {"shared"}
-  Admission = "atomic"
+  Admission = "parked"
 VIEW View
 INVARIANTS TypeOK QueuedWithinShardCap
 PROPERTIES C28_AckOrder C28_ExactlyOne C28_OutboundOrder C28_OutboundComplete C28_DrainFence C28_DrainCompletes
